@@ -37,6 +37,7 @@ template<class Cfg> ModelTraits backend_traits() {
 	T.throwing_move = ET::throwing_move;
 	T.always_equal  = Cfg::always_equal;
 	T.tracked_is_triv = std::is_same_v<typename Cfg::elem, Triv>;
+	T.assign_throws   = std::is_same_v<typename Cfg::elem, TrivA>;
 	return T;
 }
 
